@@ -111,15 +111,10 @@ def _make_pkg_resources(builddir, repo_src):
 @_shim("numba.core.cgutils.pointer_add",
        "numba >= 0.5x pointer_add uses GEP and needs a pointer operand; the repo (1.4.0, numba 0.50 era) passes "
        "integer base addresses, which the old ptrtoint/add/inttoptr form accepted")
-def _shim_numba_pointer_add():
-    try:
-        import numba.core.cgutils as cgutils
-        import llvmlite.ir
-    except ImportError:
-        return
+def _post_numba_cgutils(cgutils):
     if getattr(cgutils.pointer_add, "_lanep", False):
         return
-    from numba.core.cgutils import intp_t
+    intp_t = cgutils.intp_t
 
     def pointer_add(builder, ptr, offset, return_type=None):
         """Add an integral *offset* to pointer *ptr*, and return a pointer of *return_type* (or, if omitted,
@@ -132,11 +127,6 @@ def _shim_numba_pointer_add():
 
     pointer_add._lanep = True
     cgutils.pointer_add = pointer_add
-    try:
-        import numba.cgutils as old
-        old.pointer_add = pointer_add
-    except Exception:
-        pass
 
 
 # ---------------------------------------------------------------- the finder
@@ -210,7 +200,173 @@ def _post_connect_numpy(module):
         module.NDArrayOperatorsMixin = type("NDArrayOperatorsMixin", (object,), ns)
 
 
-_POST_EXEC = {"awkward._connect._numpy": _post_connect_numpy}
+@_shim("pyarrow.parquet.ParquetWriter(use_compliant_nested_type=False)",
+       "pyarrow >= 14 writes list items as '<col>.list.element' by default; the repo's lazy Parquet reader (and its "
+       "tests) expect the pyarrow 2-5 naming '<col>.list.item', so the old default is restored for writers")
+def _post_pyarrow_parquet(module):
+    import functools
+    import inspect
+    cls = module.ParquetWriter
+    orig = cls.__init__
+    if getattr(orig, "_lanep", False):
+        return
+    try:
+        has = "use_compliant_nested_type" in inspect.signature(orig).parameters
+    except (TypeError, ValueError):
+        has = False
+    if not has:
+        return
+
+    @functools.wraps(orig)
+    def __init__(self, *args, **kwargs):
+        kwargs.setdefault("use_compliant_nested_type", False)
+        return orig(self, *args, **kwargs)
+
+    __init__._lanep = True
+    cls.__init__ = __init__
+
+
+@_shim("numba_extensions entry point",
+       "setup.cfg declares the entry point numba_extensions:init = awkward._connect._numba:register, which only "
+       "exists for a pip-installed package; numba.core.entrypoints.init_all() is wrapped to call that function")
+def _post_numba_entrypoints(module):
+    orig = module.init_all
+    if getattr(orig, "_lanep", False):
+        return
+
+    def init_all():
+        first = not module._already_initialized
+        import warnings
+        with warnings.catch_warnings():
+            # the awkward 2.x wheel in the venv registers 'awkward.numba:_register', which resolves to this package
+            warnings.filterwarnings("ignore", message="Numba extension module 'awkward.numba' failed to load")
+            orig()
+        if first and "awkward" in sys.modules and getattr(sys.modules["awkward"], "_ext", None) is not None \
+                and getattr(sys.modules["awkward"]._ext, "__akext__", False):
+            try:
+                sys.modules["awkward"]._connect._numba.register()
+            except Exception as err:        # numba only warns when an extension fails to load
+                import warnings
+                warnings.warn("Numba extension module 'awkward._connect._numba' failed to load due to '%s(%s)'."
+                              % (type(err).__name__, err))
+
+    init_all._lanep = True
+    init_all.__doc__ = orig.__doc__
+    module.init_all = init_all
+
+
+@_shim("numba typing templates: old-style error capturing",
+       "numba >= 0.59 ('new_style' captured errors, the only style in 0.67) propagates non-NumbaError exceptions "
+       "raised inside typing templates; the repo's templates (numba 0.50 era) signal 'no match' with TypeError/"
+       "ValueError, which old numba turned into TypingError.  Exceptions raised from the repo's own typing code are "
+       "converted to TypingError in AbstractTemplate.apply / AttributeTemplate.resolve")
+def _post_numba_templates(module):
+    import numba.core.errors as errors
+    if getattr(module.AbstractTemplate.apply, "_lanep", False):
+        return
+    repo_pkg = os.path.join(vbuild.repo_dir(), "src", "awkward") + os.sep
+
+    def raised_in_repo(err):
+        tb = err.__traceback__
+        last = None
+        while tb is not None:
+            last = tb
+            tb = tb.tb_next
+        return last is not None and last.tb_frame.f_code.co_filename.startswith(repo_pkg)
+
+    def wrap(orig):
+        def method(self, *args, **kwargs):
+            try:
+                return orig(self, *args, **kwargs)
+            except errors.NumbaError:
+                raise
+            except Exception as err:
+                if raised_in_repo(err):
+                    raise errors.TypingError(str(err)) from err
+                raise
+        method._lanep = True
+        method.__name__ = orig.__name__
+        method.__doc__ = orig.__doc__
+        return method
+
+    module.AbstractTemplate.apply = wrap(module.AbstractTemplate.apply)
+    module.AttributeTemplate.resolve = wrap(module.AttributeTemplate.resolve)
+
+
+@_shim("llvmlite.llvmpy.core.Type",
+       "llvmlite >= 0.39 removed the llvmpy compatibility layer; the repo's Numba lowering uses "
+       "llvmlite.llvmpy.core.Type.int/.pointer, which are re-provided on top of llvmlite.ir")
+def _post_llvmlite(module):
+    if hasattr(module, "llvmpy") or "llvmlite.llvmpy" in sys.modules:
+        return
+    try:
+        if importlib.machinery.PathFinder.find_spec("llvmlite.llvmpy", module.__path__) is not None:
+            return
+    except Exception:
+        pass
+    import llvmlite.ir as ir
+
+    llvmpy = types.ModuleType("llvmlite.llvmpy", "lanep stub of the removed llvmlite.llvmpy layer")
+    core = types.ModuleType("llvmlite.llvmpy.core", "lanep stub of the removed llvmlite.llvmpy.core")
+
+    class Type(object):
+        @staticmethod
+        def int(width=32):
+            return ir.IntType(width)
+
+        @staticmethod
+        def float():
+            return ir.FloatType()
+
+        @staticmethod
+        def double():
+            return ir.DoubleType()
+
+        @staticmethod
+        def void():
+            return ir.VoidType()
+
+        @staticmethod
+        def pointer(ty, addrspace=0):
+            return ir.PointerType(ty, addrspace)
+
+        @staticmethod
+        def function(res, args, var_arg=False):
+            return ir.FunctionType(res, args, var_arg=var_arg)
+
+        @staticmethod
+        def struct(members):
+            return ir.LiteralStructType(members)
+
+        @staticmethod
+        def array(element, count):
+            return ir.ArrayType(element, count)
+
+    class Constant(object):
+        @staticmethod
+        def int(ty, val):
+            return ir.Constant(ty, val)
+
+        @staticmethod
+        def null(ty):
+            return ir.Constant(ty, None)
+
+        @staticmethod
+        def real(ty, val):
+            return ir.Constant(ty, val)
+
+    core.Type = Type
+    core.Constant = Constant
+    llvmpy.core = core
+    llvmpy.__path__ = []
+    sys.modules["llvmlite.llvmpy"] = llvmpy
+    sys.modules["llvmlite.llvmpy.core"] = core
+    module.llvmpy = llvmpy
+
+
+_POST_EXEC = {"awkward._connect._numpy": _post_connect_numpy, "pyarrow.parquet": _post_pyarrow_parquet,
+              "llvmlite": _post_llvmlite, "numba.core.typing.templates": _post_numba_templates,
+              "numba.core.entrypoints": _post_numba_entrypoints, "numba.core.cgutils": _post_numba_cgutils}
 
 
 def _need_pkg_resources_stub():
@@ -270,7 +426,9 @@ def load(variant="plain", verbose=False):
 
     # (d) shims that must be in place before the package is imported
     _shim_numpy_aliases()
-    _shim_numba_pointer_add()
+    for name, post in _POST_EXEC.items():
+        if name in sys.modules:              # already imported: patch in place
+            post(sys.modules[name])
     for f in _LATE_SHIMS_BEFORE_IMPORT:
         f()
 
